@@ -99,6 +99,26 @@ func (e *Env) TempDir() string {
 	return d
 }
 
+// FuzzEnv builds an Env for a native fuzz target (which runs outside Main): the
+// thorough tier, a private temp root, and the matchers of all open known
+// findings of the property enabled (the witnesses themselves are replayed by
+// TestCxx, not by the fuzz target). Addition for C05; existing behaviour unchanged.
+func FuzzEnv(property string) *Env {
+	tmpRoot := os.Getenv("VERIF_TMP")
+	if tmpRoot == "" {
+		tmpRoot = filepath.Join(os.TempDir(), fmt.Sprintf("verif.%d", os.Getpid()))
+	}
+	tmpRoot = filepath.Join(tmpRoot, fmt.Sprintf("%s.fuzz.%d", property, os.Getpid()))
+	if err := os.MkdirAll(tmpRoot, 0o755); err != nil {
+		panic(err)
+	}
+	env := &Env{Property: property, Tier: "thorough", Seed: 1, TmpRoot: tmpRoot, known: map[string]bool{}}
+	for _, f := range loadFindings(property) {
+		env.known[f.Matcher] = true
+	}
+	return env
+}
+
 // Spec describes one property check.
 type Spec[C any] struct {
 	ID          string
